@@ -349,6 +349,9 @@ def run(ctx):
               'int fields: values above INT_MAX are rejected before the narrowing cast' if not bad else
               '%s in `%s`' % (bad[0]['kind'], bad[0]['expr']), c20_fn.file, bad[0]['line'] if bad else c20_fn.line,
               config=config)
+        # the parsers reject sizes that do not fit what is left of the header, without wrap-around (C03-a rule)
+        from . import c03
+        c03.cursor_clauses(ck, prog, config, ca='C13-d', cb='C13-d')
         # ---- e
 
         class Off(SymRule):
